@@ -25,7 +25,7 @@ Tokens == <<
   "##!", "##!>", "##!<", "##!=>", "##!=<", "##!+", "##!^", "##!$", " assemble", " cmdline", " unix", " define", " x", " include",
   " include-except", " f", " --", " i", "@", "~", "'",
   \* whole directive lines (each ends its line)
-  "DEFSELF", "DEFGROW", "DEFCYC1", "DEFCYC2", "DEFOK", "STOREX", "LOADX", "INCLF", "INCLSELF"
+  "CMDUNIX", "ENDBLK", "INCLDEL", "INCLQUOTE", "DEFSELF", "DEFGROW", "DEFCYC1", "DEFCYC2", "DEFOK", "STOREX", "LOADX", "INCLF", "INCLSELF"
 >>
 
 Init == toks = <<>>
